@@ -54,6 +54,7 @@ KNOB_SPACE = {
     'charref': ['raw', 'raw', 'dec', 'hex'],
     'quote': ['"', "'"],
     'empty': ['pair', 'self'],
+    'comments': [0, 0, 0, 0, 0, 1, 3, 7],
 }
 
 
@@ -334,6 +335,8 @@ def generate(seed, profile_name, faulty=None):
     RR = random.Random('%d/restart' % seed)
     cfg = {'profile': profile_name, 'faulty': faulty, 'page_size': R.randint(1, 7), 'double': bool(P.get('double')), 'twin': bool(P.get('twin')),
            'prefix': R.choice(['ro/', '', 'a/b/', 'ro'])}
+    # the host's logging configuration (the library logs what it warns about): silenced, everything, errors only
+    cfg['logging'] = random.Random('%d/logging' % seed).choice(['off', 'off', 'off', 'debug', 'debug', 'error'])
     steps = []
     mid = R.choice([1, 7, 8, 95, 98, 996, 9990, 99990, 1234567, 1234567, 2147483000, 4294960000])
 
